@@ -13,32 +13,32 @@ open PlasVerif.Model.Context PlasVerif.Model.Catcodes PlasVerif.Spec.Balanced Pl
 
 /-- **Closing a group restores everything local.**  For every balanced body, every stack and
     every (non-document) object: after `push o; body; pop o'` the stack is the one before the
-    group, except for (a) definitions `g` added to the global frame, each of which has a
-    global-source operation (a global definition, or a lookup miss) in the body, and (b) the
-    local bindings of the names `ns` that the body defined with `\gdef`, which are gone at every
-    level (a global definition replaces the meaning at every group level). -/
+    group, except for a change `d` (`Spec.Balanced.Delta`): (a) definitions `d.g` and token aliases `d.gl` added to
+    the global frame, each of which has a global-source operation (a global definition, a `\global\let`, or a lookup
+    miss) in the body, and (b) the local bindings / aliases of the names `d.ns` / `d.ls` that the body assigned globally
+    (`\gdef`, `\global\let`), which are gone at every level (a global assignment replaces the meaning at every group level). -/
 theorem group_restores (o o' : Option ObjRef) (locals : List (Nat × Val)) (body : List Op)
     (hb : Balanced body) (ho : notDoc o = true) (hcl : closes o o' = true) (c : Ctx) (hc : c ≠ []) :
-    ∃ g ns, run (Op.push o locals :: (body ++ [Op.pop o'])) c = shape g ns c ∧
-      (∀ x ∈ g, ∃ op ∈ body, globalSource x.1 op = true) ∧ (∀ n ∈ ns, ∃ op ∈ body, isGdef n op = true) := by
+    ∃ d : Delta, run (Op.push o locals :: (body ++ [Op.pop o'])) c = shape d c ∧ d.justified body := by
   cases c with
   | nil => exact absurd rfl hc
   | cons f t =>
-    obtain ⟨fb, gb, nb, h1, e1, s1, d1⟩ :=
+    obtain ⟨fb, db, h1, e1, j1⟩ :=
       balanced_frame hb { macros := locals, lets := [], cats := cats (f :: t), obj := o } (f :: t)
-    refine ⟨gb, nb, ?_, s1, d1⟩
+    refine ⟨db, ?_, j1⟩
     rw [run_cons, run_append]
     simp only [step, run_cons, run]
     rw [push_notDoc o locals (f :: t) ho]
     have : List.foldl step ({ macros := locals, lets := [], cats := cats (f :: t), obj := o } :: f :: t) body =
-        fb :: shape gb nb (f :: t) := h1
+        fb :: shape db (f :: t) := h1
     rw [this]
     simp only [List.foldl]
-    exact pop_own_frame o o' fb _ e1 hcl (shape_ne_nil gb nb (f :: t) (by simp))
+    exact pop_own_frame o o' fb _ e1 hcl (shape_ne_nil db (f :: t) (by simp))
 
-/-- non-vacuity: `{ \def\a{..} \catcode`\@=11 \let\b=x  \undefined }` inside an environment frame -/
-example : Balanced [Op.push none [], .addLocal 1 (.defn 5), .setCat 64 11, .letTok 2 120, .lookup 3, .gdef 4 (.defn 9), .pop none] :=
-  .group none none [] _ [] rfl rfl (.op _ _ rfl (.op _ _ rfl (.op _ _ rfl (.op _ _ rfl (.op _ _ rfl .nil))))) .nil
+/-- non-vacuity: `{ \def\a{..} \catcode`\@=11 \let\b=x  \undefined \gdef\d{..} \global\let\e\a \global\let\f=y }` -/
+example : Balanced [Op.push none [], .addLocal 1 (.defn 5), .setCat 64 11, .letTok 2 120, .lookup 3, .gdef 4 (.defn 9),
+    .gletCs 5 1, .gletTok 6 121, .pop none] :=
+  .group none none [] _ [] rfl rfl (.op _ _ rfl (.op _ _ rfl (.op _ _ rfl (.op _ _ rfl (.op _ _ rfl (.op _ _ rfl (.op _ _ rfl .nil))))))) .nil
 
 /-- non-vacuity for object frames: `\\begin{foo}` (object 1) is closed by its `\\end{foo}` instance (object 3: same class,
     end mode), and a `\\bar` frame by a macro named `\\endbar` -/
@@ -52,43 +52,52 @@ theorem depth_balanced (ops : List Op) (hb : Balanced ops) (c : Ctx) (hc : c ≠
   cases c with
   | nil => exact absurd rfl hc
   | cons f t =>
-    obtain ⟨f', g, ns, h, _, _, _⟩ := balanced_frame hb f t
+    obtain ⟨f', d, h, _, _⟩ := balanced_frame hb f t
     rw [h]; simp [shape_length]
 
 /-- **Category codes are local**: after the group every character has the category it had before. -/
 theorem catcode_local (o o' : Option ObjRef) (locals : List (Nat × Val)) (body : List Op)
     (hb : Balanced body) (ho : notDoc o = true) (hcl : closes o o' = true) (c : Ctx) (hc : c ≠ []) (ch : Nat) :
     whichCodeCtx (run (Op.push o locals :: (body ++ [Op.pop o'])) c) ch = whichCodeCtx c ch := by
-  obtain ⟨g, ns, h, _, _⟩ := group_restores o o' locals body hb ho hcl c hc
+  obtain ⟨d, h, _⟩ := group_restores o o' locals body hb ho hcl c hc
   rw [h, whichCodeCtx, cats_shape]; rfl
 
-/-- **`\let` aliases of tokens are local.** -/
+/-- **`\let` aliases of tokens are local**: a name that the body does not `\global\let` is, after the group, an alias
+    of exactly the token it was an alias of before — whatever local `\let`s the body made at any depth. -/
 theorem let_local (o o' : Option ObjRef) (locals : List (Nat × Val)) (body : List Op)
-    (hb : Balanced body) (ho : notDoc o = true) (hcl : closes o o' = true) (c : Ctx) (hc : c ≠ []) (n : Nat) :
+    (hb : Balanced body) (ho : notDoc o = true) (hcl : closes o o' = true) (c : Ctx) (hc : c ≠ []) (n : Nat)
+    (hn : ∀ op ∈ body, isGlet n op = false) :
     getLet n (run (Op.push o locals :: (body ++ [Op.pop o'])) c) = getLet n c := by
-  obtain ⟨g, ns, h, _, _⟩ := group_restores o o' locals body hb ho hcl c hc
-  rw [h, getLet_shape]
+  obtain ⟨d, h, hj⟩ := group_restores o o' locals body hb ho hcl c hc
+  rw [h]
+  apply getLet_shape
+  · intro x hx hxn
+    obtain ⟨op, hop, hs⟩ := hj.2.2.1 x hx
+    rw [hxn, hn op hop] at hs
+    exact Bool.false_ne_true hs
+  · intro hmem
+    obtain ⟨op, hop, hs⟩ := hj.2.2.2 n hmem
+    rw [hn op hop] at hs
+    exact Bool.false_ne_true hs
 
-/-- **Definitions are local**: a name that the body neither defines globally nor looks up while
+/-- **Definitions are local**: a name that the body neither assigns globally nor looks up while
     undefined means after the group exactly what it meant before — whatever local definitions,
     aliases or redefinitions of it the body made at any depth. -/
 theorem def_local (o o' : Option ObjRef) (locals : List (Nat × Val)) (body : List Op)
     (hb : Balanced body) (ho : notDoc o = true) (hcl : closes o o' = true) (c : Ctx) (hc : c ≠ []) (n : Nat)
-    (hn : ∀ op ∈ body, globalSource n op = false) :
+    (hn : ∀ op ∈ body, globalSource n op = false ∧ isGdef n op = false) :
     find n (run (Op.push o locals :: (body ++ [Op.pop o'])) c) = find n c := by
-  obtain ⟨g, ns, h, hs, hd⟩ := group_restores o o' locals body hb ho hcl c hc
+  obtain ⟨d, h, hj⟩ := group_restores o o' locals body hb ho hcl c hc
   rw [h]
   apply find_shape
   · intro x hx hxn
-    obtain ⟨op, hop, hsrc⟩ := hs x hx
-    rw [hxn, hn op hop] at hsrc
+    obtain ⟨op, hop, hsrc⟩ := hj.1 x hx
+    rw [hxn, (hn op hop).1] at hsrc
     exact Bool.false_ne_true hsrc
   · intro hmem
-    obtain ⟨op, hop, hg⟩ := hd n hmem
-    have : globalSource n op = true := by
-      cases op <;> simp_all [isGdef, globalSource]
-    rw [hn op hop] at this
-    exact Bool.false_ne_true this
+    obtain ⟨op, hop, hg⟩ := hj.2.1 n hmem
+    rw [(hn op hop).2] at hg
+    exact Bool.false_ne_true hg
 
 /-- **Global definitions survive**: once `n` is defined globally, no later history that does not
     itself write `n` — in particular no closing of groups, however many — changes its global meaning. -/
@@ -115,6 +124,29 @@ theorem gdef_replaces_every_level (n : Nat) (v : Val) (c : Ctx) (hc : c ≠ []) 
 example : find 1 (run [Op.push none [], .addLocal 1 (.defn 5), .push none [], .gdef 1 (.defn 7), .pop none] init)
     = some (.defn 7) := by decide
 
+/-- **A `\\global\\let` replaces the meaning at every group level**: right after `\\global\\let\\d=\\s`, at any depth and
+    whatever local definitions of `d` the enclosing groups had made, `d` means what `\\s` meant — also in the global frame,
+    where (by `glet_survives`) it stays after all those groups have closed. -/
+theorem glet_replaces_every_level (d s : Nat) (c : Ctx) (hc : c ≠ []) :
+    find d (step c (.gletCs d s)) = some (lookup s c).1 ∧ findGlobal d (step c (.gletCs d s)) = some (lookup s c).1 := by
+  refine ⟨find_letGlobalCs d s c hc, ?_⟩
+  simp only [step, letGlobalCs, lookup]
+  split
+  · exact findGlobal_addGlobal_same d _ _ (dropLetsL_ne_nil _ _ (dropLocalsL_ne_nil [d] c hc))
+  · exact findGlobal_addGlobal_same d _ _ (dropLetsL_ne_nil _ _ (dropLocalsL_ne_nil [d] _ (modifyGlobal_ne_nil _ c hc)))
+
+/-- … and that global meaning survives any later history that does not itself write `d`. -/
+theorem glet_survives (d s : Nat) (ops : List Op) (c : Ctx) (hc : c ≠ [])
+    (ht : ∀ op ∈ ops, touches d op = false) :
+    findGlobal d (run (Op.gletCs d s :: ops) c) = some (lookup s c).1 := by
+  rw [run_cons, findGlobal_run d ops _ (step_ne_nil c _ hc) ht]
+  exact (glet_replaces_every_level d s c hc).2
+
+example : find 1 (run [Op.addGlobal 2 (.defn 8), .push none [], .addLocal 1 (.defn 5), .push none [], .gletCs 1 2, .pop none] init)
+    = some (.defn 8) ∧
+    find 1 (run [Op.addGlobal 2 (.defn 8), .push none [], .addLocal 1 (.defn 5), .push none [], .gletCs 1 2, .pop none, .pop none] init)
+    = some (.defn 8) := by decide
+
 /-- **Lookup yields the innermost live definition**: a binding in the top frame wins over
     anything below; otherwise the search continues in the enclosing frames. -/
 theorem lookup_innermost (n : Nat) (f : Frame) (c : Ctx) :
@@ -136,11 +168,11 @@ theorem pop_obj_exact (o o' : Option ObjRef) (locals : List (Nat × Val)) (body 
   cases c with
   | nil => exact absurd rfl hc
   | cons f t =>
-    obtain ⟨fb, gb, nb, h1, e1, _, _⟩ :=
+    obtain ⟨fb, db, h1, e1, _⟩ :=
       balanced_frame hb { macros := locals, lets := [], cats := cats (f :: t), obj := o } (f :: t)
     refine ⟨fb, ?_, e1⟩
     rw [run_cons]
     simp only [step]
-    rw [push_notDoc o locals (f :: t) ho, h1, pop_own_frame o o' fb _ e1 hcl (shape_ne_nil gb nb (f :: t) (by simp))]
+    rw [push_notDoc o locals (f :: t) ho, h1, pop_own_frame o o' fb _ e1 hcl (shape_ne_nil db (f :: t) (by simp))]
 
 end PlasVerif.Properties.C04
